@@ -315,7 +315,7 @@ theorem call_spec (cfg : Cfg) (hw : cfg.wf = true) (s : St) (r : Ref) (hrel : Re
           simp [eventOk, noSwallow, cooldownRespected, filterRespected, recovers, gwTried, hopen', hroute]
       | true =>
         have hroute : shouldRoute cfg c.host c.hdr = true := hb.symm
-        simp only
+        simp only [gwLeg]
         cases hg : c.gw with
         | ok =>
           simp only
@@ -395,6 +395,39 @@ theorem call_spec (cfg : Cfg) (hw : cfg.wf = true) (s : St) (r : Ref) (hrel : Re
           · simp [eventOk, noSwallow, cooldownRespected, filterRespected, recovers, gwTried, hopen', hroute, hg, GwOut.failed]
           · intro _
             simp [eventOk, noSwallow, cooldownRespected, filterRespected, recovers, gwTried, hopen', hroute, hg, GwOut.failed]
+
+/-! ### case analysis of one call (for the state-level theorems) -/
+
+theorem directResult_ne_respGw (c : CallIn) : directResult c ≠ .respGw := by
+  unfold directResult; cases c.direct <;> simp
+
+theorem stateOk_fields (cfg : Cfg) (s : St) :
+    (stateOk cfg s).cnt = s.cnt ∧ (stateOk cfg s).start = s.start ∧ (stateOk cfg s).now = s.now := by
+  unfold stateOk; split <;> exact ⟨rfl, rfl, rfl⟩
+
+theorem call_cases (cfg : Cfg) (s : St) (c : CallIn) :
+    ((stateOk cfg s).ok = false ∧
+      call cfg s c = directLeg { stateOk cfg s with cnt := 0 } [] c) ∨
+    ((stateOk cfg s).ok = true ∧ ∃ e, call cfg s c = (stateOk cfg s, ⟨[], .raiseDec e⟩)) ∨
+    ((stateOk cfg s).ok = true ∧ ∃ cache,
+      call cfg s c = directLeg { stateOk cfg s with cache := cache, cnt := 0 } [] c) ∨
+    ((stateOk cfg s).ok = true ∧ ∃ cache,
+      call cfg s c = gwLeg cfg { stateOk cfg s with cache := cache } c) := by
+  unfold call
+  generalize stateOk cfg s = s1
+  by_cases hok : s1.ok = true
+  · right
+    simp only [hok, if_true, true_and]
+    cases hal : isAllowed cfg (mkFilter cfg) s1.cache c.host c.hdr with
+    | error e => left; exact ⟨e, rfl⟩
+    | ok p =>
+      obtain ⟨b, cache⟩ := p
+      cases b with
+      | false => right; left; exact ⟨cache, rfl⟩
+      | true => right; right; exact ⟨cache, rfl⟩
+  · have hok' : s1.ok = false := by simpa using hok
+    left
+    simp [hok']
 
 /-! ### whole runs -/
 
